@@ -78,7 +78,7 @@ def run_units(units, jobs=None):
             results[i] = _worker(i)[1]
         return results
     ctx = multiprocessing.get_context('fork')
-    with ctx.Pool(jobs) as pool:
+    with ctx.Pool(jobs, maxtasksperchild=1) as pool:      # a fresh process per unit: verdicts do not depend on which units ran before in the worker
         done = 0
         for i, res in pool.imap_unordered(_worker, range(len(units)), chunksize=1):
             results[i] = res
